@@ -195,6 +195,18 @@ def build_ops(ctx, exe):
         else:
             ms = mutants(x, rng, 1 if (th or len(x) < 400) else 2)
         ops += [pre + hx(y) for y in ms]
+        if d == "smcu":
+            # every combination of Lc* form and Le* form around the same protected body (these octets are
+            # not covered by the MAC)
+            if x[4] != 0:
+                body = x[5:5 + x[4]]
+            else:
+                body = x[7:7 + x[5] * 256 + x[6]]
+            for lc in ([bytes([len(body)])] if 0 < len(body) < 256 else []) + [b"\x00" + len(body).to_bytes(2, "big")]:
+                for le in (b"", b"\x00", b"\x00\x00", b"\x00\x00\x00", b"\x01", b"\x00\x01"):
+                    y = x[:4] + lc + body + le
+                    if y != x:
+                        ops.append(pre + hx(y))
         if d == "cvcdec":
             # the body alone (static decoder, no content check)
             h = tl(x, 0, len(x))
@@ -278,7 +290,9 @@ def judge(op, out):
             x = unhx(w[1])
             if int(o[8]) != len(x): fails.append("btokCVCLen %s != accepted length %d" % (o[8], len(x)))
             if not single_tree(x): fails.append("accepted octets are not a well-formed DER tree")
-            second.append(("cvcenc " + " ".join(o[:8]), hx(x), "re-encode of the accepted CV certificate"))
+            zero_hat = (o[4] == "0000000000" and bytes.fromhex("7f4c13060a2a7000020022654f0601") in x) or \
+                       (o[5] == "0000" and bytes.fromhex("060a2a7000020022654f0801") in x)
+            second.append(("cvcenc " + " ".join(o[:8]), hx(x), "re-encode of the accepted CV certificate" + (" [explicit all-zero HAT]" if zero_hat else "")))
         elif k == "cvcbody":
             x = unhx(w[1]); c = int(o[8])
             if c > len(x): fails.append("consumed %d > input %d" % (c, len(x)))
@@ -356,7 +370,7 @@ def run(ctx):
     ctx.cov["ops_total"] = ctx.cov.get("ops_total", 0) + len(ops) + len(enc_ops) + len(second)
     seen = set()
     for op, what in bad:
-        key = "container:" + op.split(" ")[0]
+        key = "container:" + op.split(" ")[0] + (":explicit-zero-hat" if "[explicit all-zero HAT]" in what else "")
         if key in seen:
             continue
         seen.add(key)
